@@ -145,7 +145,8 @@ func genFmtCases(seed int64, tier string, scale float64) []fmtCase {
 		addCase("time", []ref.Msg{mk(0, 0, t, true, true), mk(3, 5, t, false, false), mk(0, 9, t, false, true)})
 	}
 	// a few large
-	larges := [][2]int{{0, 64 << 10}, {64 << 10, 0}, {1 << 10, 1 << 20}}
+	// ... and the largest message the writer accepts: key + value exactly at the format's 64 MiB bound
+	larges := [][2]int{{0, 64 << 10}, {64 << 10, 0}, {1 << 10, 1 << 20}, {3, 64<<20 - 3}}
 	if tier == "thorough" {
 		larges = append(larges, [2]int{1 << 20, 1 << 20}, [2]int{300, 8 << 20})
 	}
